@@ -482,6 +482,32 @@ func checkIntegral(f float64, typ string) error {
 	if f != math.Trunc(f) || math.IsInf(f, 0) {
 		return errz.TypeErrorf("type error: float value %v is not a valid %s", f, typ)
 	}
+	// lo is the smallest value of the type and hi is one more than its largest
+	// value (both exactly representable as float64)
+	var lo, hi float64
+	switch typ {
+	case "int8":
+		lo, hi = math.MinInt8, math.MaxInt8+1
+	case "int16":
+		lo, hi = math.MinInt16, math.MaxInt16+1
+	case "int32":
+		lo, hi = math.MinInt32, math.MaxInt32+1
+	case "int", "int64":
+		lo, hi = math.MinInt64, -float64(math.MinInt64)
+	case "byte", "uint8":
+		lo, hi = 0, math.MaxUint8+1
+	case "uint16":
+		lo, hi = 0, math.MaxUint16+1
+	case "uint32":
+		lo, hi = 0, math.MaxUint32+1
+	case "uint", "uint64":
+		lo, hi = 0, 2*-float64(math.MinInt64)
+	default:
+		return nil
+	}
+	if f < lo || f >= hi {
+		return errz.TypeErrorf("type error: float value %v is out of range for %s", f, typ)
+	}
 	return nil
 }
 
@@ -577,6 +603,9 @@ type Int8Converter struct{}
 func (c *Int8Converter) To(obj Object) (interface{}, error) {
 	switch obj := obj.(type) {
 	case *Byte:
+		if err := checkIntRange(int64(obj.value), math.MinInt8, math.MaxInt8, "int8"); err != nil {
+			return nil, err
+		}
 		return int8(obj.value), nil
 	case *Int:
 		if err := checkIntRange(obj.value, math.MinInt8, math.MaxInt8, "int8"); err != nil {
